@@ -58,8 +58,8 @@ add("C10","E-AN","exploration","Generated workspaces, optional edits, then remov
 add("C24","E-LS","exploration","Seeded exploration of message sequences mixing all 38 registered request methods (valid, malformed, absent params; in-range and far out-of-range positions), unknown methods, $/cancelRequest for pending/answered/unknown ids, stray responses, unknown and ill-typed notifications, editor-initiated file renames (workspace/didRenameFiles with the follow-up showMessageRequest / applyEdit round trip), number and string request ids, handshake variants (undeserializable initialize capabilities, request before initialize), under seeded task schedules, clock jumps and client faults (late / error / duplicate / withheld answers to server requests). Oracle over the recorded history: no duplicate or alien response; after faults stop and 120 simulated seconds every request id has exactly one result-xor-error response; a final probe sequence is still served.",LS_NOTE,LS_TECH)
 add("C27","E-LS","exploration","Seeded exploration of open/change/close/reopen bursts under random, mostly-FIFO, priority (PCT-like) and FIFO task schedules with seeded yields before lock acquisitions; after quiescence the content the analysis holds for every document is read back through emmy/syntaxTree and compared with a message-order reference model, and where the text matches a hover on its marker local must show the index was rebuilt from that text (document versions restart per open session as editors do); closed on-disk documents are additionally rewritten on disk to check they are treated as closed.",LS_NOTE,LS_TECH)
 add("C28","E-LS","exploration","Seeded exploration of lock-heavy scripts (position requests, open/change/close, watched-file events for Lua files and .emmyrc.json, configuration changes, saves with reindex, file renames, pull diagnostics, cancellations) at zero gaps under seeded schedules, pre-acquire yields and a per-run slow resource (one lock type whose acquisitions stall often and long), with tokio's real fair RwLock/Mutex. O1 bounded liveness: after faults stop every probe (tree per document, didOpen of a fresh document needing both write locks, hover on it) completes within 300 simulated seconds, else the wait-for graph of the lock trace names the cycle. O2: no task waits for a lock it already holds. O3: the nested acquisitions observed in one run must order the locks acyclically (a cycle is reported even if the schedule did not close it into a stall); the union of edges is reported as evidence.",LS_NOTE,LS_TECH)
-add("C29","E-LS","exploration","Seeded exploration of scripts containing at least one reload/reindex trigger (.emmyrc.json rewrite + watcher event, didChangeConfiguration with changed client config, didSave with enableReindex) interleaved with open/change/save/close and external disk writes/deletes/renames of closed files with delayed, duplicated, reordered watcher events; after all events are delivered and 120 simulated seconds, every open workspace document must show exactly its last editor text, closed on-disk documents the disk content (last editor text tolerated for a dirty close until the next reported disk change), closed not-on-disk documents must be absent.",LS_NOTE,LS_TECH)
-add("C30","E-LS","exploration","Push-diagnostics mode: seeded edit/close/delete histories with gaps around the randomised diagnostic interval, clock jumps, reload and reindex triggers and watcher events; every text version carries a unique unused local so each publication is attributable; edits are also placed exactly where the previous edit's debounce timer fires (interval -1/0/+1 ms) and one lock type per run may be slow. After quiescence the last publishDiagnostics per open workspace document must equal the diagnosis of its current text in a fresh single-file analysis with the same configuration; removed documents must end with an empty publication.",LS_NOTE,LS_TECH)
+add("C29","E-LS","exploration","Seeded exploration of scripts containing at least one reload/reindex trigger (.emmyrc.json rewrite + watcher event, didChangeConfiguration with changed client config, didSave with enableReindex) interleaved with open/change/save/close and external disk writes/deletes/renames of closed files with delayed, duplicated, reordered watcher events; a share of the steps is trace-triggered (sent the moment a background task of the server takes its open-file snapshot, acquires or releases the analysis write lock, etc., with that task then held back); after all events are delivered and 120 simulated seconds, every open workspace document must show exactly its last editor text, closed on-disk documents the disk content (last editor text tolerated for a dirty close until the next reported disk change), closed not-on-disk documents must be absent.",LS_NOTE,LS_TECH)
+add("C30","E-LS","exploration","Push-diagnostics mode: seeded edit/close/delete histories with gaps around the randomised diagnostic interval, clock jumps, reload and reindex triggers and watcher events; every text version carries a unique unused local so each publication is attributable; edits are also placed exactly where the previous edit's debounce timer fires (interval -1/0/+1 ms) or the moment the debounced task releases the token table / the analysis read lock (trace-triggered steps), and one lock type per run may be slow. After quiescence the last publishDiagnostics per open workspace document must equal the diagnosis of its current text in a fresh single-file analysis with the same configuration; removed documents must end with an empty publication.",LS_NOTE,LS_TECH)
 
 extra = os.path.join(HERE, "tools", "manifest_extra.py")
 if os.path.exists(extra):
